@@ -9,6 +9,7 @@
 #include <cstring>
 #include <memory>
 #include <string>
+#include <string_view>
 #include <vector>
 
 using namespace tulz;
@@ -16,8 +17,8 @@ using namespace tulz;
 namespace vf {
 namespace {
 
-enum K { ASSIGN = 0, ADD, SUB, MUL, DIV, PRE_INC, POST_INC, PRE_DEC, POST_DEC, APPLY_SET, APPLY_ADD, APPLY_NOOP, SUBSCRIBE, UNSUBSCRIBE, ASSIGN_SAME, NK };
-const char *kname[] = {"=", "+=", "-=", "*=", "/=", "++x", "x++", "--x", "x--", "apply(set)", "apply(add)", "apply(no-op)", "subscribe", "unsubscribe", "=(current value)"};
+enum K { ASSIGN = 0, ADD, SUB, MUL, DIV, PRE_INC, POST_INC, PRE_DEC, POST_DEC, APPLY_SET, APPLY_ADD, APPLY_NOOP, SUBSCRIBE, UNSUBSCRIBE, ASSIGN_SAME, ASSIGN_OTHER_TYPE, NK };
+const char *kname[] = {"=", "+=", "-=", "*=", "/=", "++x", "x++", "--x", "x--", "apply(set)", "apply(add)", "apply(no-op)", "subscribe", "unsubscribe", "=(current value)", "=(value of another type)"};
 
 struct NearEq {
     double eps;
@@ -29,8 +30,9 @@ template <> std::string show<std::string>(const std::string &v) { return "\"" + 
 template <class T> bool same_bits(const T &a, const T &b) { return std::memcmp(&a, &b, sizeof(T)) == 0; }
 template <> bool same_bits<std::string>(const std::string &a, const std::string &b) { return a == b; }
 
-template <class T, class Eq> struct Runner {
-    using Obs = Observable<T, Eq>;
+// ObsT: for long and std::string the Observable is instantiated with its DEFAULT equality, as users write it
+template <class T, class Eq, class ObsT = Observable<T, Eq>> struct Runner {
+    using Obs = ObsT;
     struct SubRec { Subscription<T &> sub; std::vector<T> got; int flavour; bool live = true; };
     std::unique_ptr<Obs> ob;
     Eq eq;
@@ -66,7 +68,7 @@ template <class T, class Eq> struct Runner {
 
     template <class MakeOperand, class Big> void run(const Case &c, T init, Eq e, MakeOperand operand, Big too_big) {
         eq = e; model = init;
-        ob = std::make_unique<Obs>(init, e);
+        if constexpr (std::is_same_v<Obs, Observable<T>>) ob = std::make_unique<Obs>(init); else ob = std::make_unique<Obs>(init, e);
         int opno = 0;
         constexpr bool isstr = std::is_same_v<T, std::string>;
         for (const Op &o : c.ops) {
@@ -77,7 +79,7 @@ template <class T, class Eq> struct Runner {
             T x = operand(o.a, o.b);
             T old = model;
             bool done = true;
-            if (!isstr && too_big(model) && o.k != ASSIGN && o.k != SUBSCRIBE && o.k != UNSUBSCRIBE && o.k != ASSIGN_SAME && o.k != APPLY_SET && o.k != APPLY_NOOP) { count_skipped(); continue; }
+            if (!isstr && too_big(model) && o.k != ASSIGN && o.k != ASSIGN_OTHER_TYPE && o.k != SUBSCRIBE && o.k != UNSUBSCRIBE && o.k != ASSIGN_SAME && o.k != APPLY_SET && o.k != APPLY_NOOP) { count_skipped(); continue; }
             switch (o.k) {
             case ASSIGN: case ASSIGN_SAME: {
                 if (o.k == ASSIGN_SAME) x = model;
@@ -89,6 +91,26 @@ template <class T, class Eq> struct Runner {
                 }
                 if (changes) model = x;                           // an Eq-equal assignment leaves the stored value untouched
                 else label("assign_eq_equal");
+                expect(when, changes);
+                break;
+            }
+            case ASSIGN_OTHER_TYPE: {
+                // assignment from a value of ANOTHER type: "changes the held value" is decided on the value converted to T
+                // (std::equal_to<T> / the user's Eq take const T&), and that converted value is what gets stored and sent
+                T conv;
+                if constexpr (std::is_same_v<T, long>) {
+                    double d = (double)model + (((unsigned)o.b % 4) == 0 ? 0.0 : ((unsigned)o.b % 4) == 1 ? 0.75 : ((unsigned)o.b % 4) == 2 ? -0.25 : 1.5);
+                    if (o.c & 1) { float f = (float)d; conv = static_cast<long>(f); *ob = f; } else { conv = static_cast<long>(d); *ob = d; }
+                } else if constexpr (std::is_same_v<T, double>) {
+                    if (o.c & 1) { int iv = (std::fabs(model) < 1e6 ? (int)model : 0) + (int)((unsigned)o.b % 3) - 1; conv = static_cast<double>(iv); *ob = iv; }
+                    else { float f = (float)(model + x); conv = static_cast<double>(f); *ob = f; }
+                } else {
+                    const char *lit = (o.b & 1) ? "baz" : "";
+                    if (o.c & 1) { conv = std::string(lit); *ob = lit; } else { std::string_view sv(lit); conv = std::string(sv); *ob = std::string(sv); }
+                }
+                bool changes = !eq(model, conv);
+                if (changes) model = conv;
+                label("assign_other_type");
                 expect(when, changes);
                 break;
             }
@@ -128,7 +150,7 @@ void run_c16(const Case &c) {
     int init = hget(c, 1, 0);
     if (type == 0) {
         label("type_long");
-        Runner<long, std::equal_to<long>> r;
+        Runner<long, std::equal_to<long>, Observable<long>> r;
         r.run(c, (long)(init % 20 - 10), std::equal_to<long>{}, [](int a, int) { return (long)(a % 13 - 6); }, [](long v) { return std::labs(v) > 1000000000000L; });
     } else if (type == 1) {
         label("type_double_neareq");
@@ -140,7 +162,7 @@ void run_c16(const Case &c) {
     } else {
         label("type_string");
         static const char *words[] = {"", "a", "foo", "a string that is clearly longer than the small-string buffer", "baz"};
-        Runner<std::string, std::equal_to<std::string>> r;
+        Runner<std::string, std::equal_to<std::string>, Observable<std::string>> r;
         r.run(c, std::string(words[(unsigned)init % 5]), std::equal_to<std::string>{}, [](int a, int) { return std::string(words[(unsigned)a % 5]); }, [](const std::string &) { return false; });
     }
 }
